@@ -62,6 +62,14 @@ claim('C08', 'dimension-identity coherence on provenance terms (reduce/drop), re
       'resolved position, drops that axis by name, labels the new axis by pct and carries the metadata. Numerical equality with NumPy is not decided.',
       'Assumes NumPy reduction semantics along axis= and numpy.ma mask semantics.', 'DESIGN.md §3 C08')
 
+claim('C09', 'finite decision table of diff (scheme x keepaxis) over provenance terms, option plumbing of cumsum/cumprod, sibling agreement of argmin/argmax',
+      'Decides structural clauses of C09: cumsum/cumprod default to the last axis, bind their own name and keep all axes; for every scheme x keepaxis the '
+      'differenced axis is sliced / kept and the NaN padding placed on the side the statement says, np.diff and the replaced axis share one resolution, the '
+      'midpoints are 0.5*(v[:-1]+v[1:]), invalid combinations raise ValueError, the recursion on n forwards axis, scheme and keepaxis with n-1; argmin and '
+      'argmax are the same algorithm up to the function name and map positions to the labels of the reduced axis through the values setter (flattened case: '
+      'unravel on obj.shape, i-th index with i-th axis). NumPy argmin tie/NaN behaviour is not decided.',
+      'Assumes np.diff / np.concatenate / np.unravel_index semantics.', 'DESIGN.md §3 C09')
+
 UNDER_CONSTRUCTION = 'checker under construction in this session (claimed in DESIGN.md, not yet registered)'
 for pid in ['C01', 'C03', 'C04', 'C05', 'C06', 'C07', 'C08', 'C09', 'C10', 'C11', 'C12', 'C13', 'C14', 'C15', 'C16',
             'C17', 'C18', 'C19']:
